@@ -41,6 +41,16 @@ Proof.
   apply H.
 Qed.
 
+(* the source root itself is never filtered: whatever the matcher says about
+   the root's own name, the root entry is selected (so a source whose name
+   matches one of its own patterns is still copied) *)
+Theorem C17_root_never_filtered : forall keep deref t,
+  exists k d rest, sel_entries (root_kept keep) deref [] t = ([], k, d) :: rest.
+Proof.
+  intros keep deref t. destruct t as [len|cs|txt res|ft|ft]; cbn [sel_entries root_kept negb tree_is_dir]; eauto.
+  destruct deref; [|eauto]. destruct res as [| |[len|cs|txt' res'|ft|ft]]; eauto.
+Qed.
+
 Example C17_nonvacuous :
   let t := TDir [([97], TFile 3); ([98], TDir [([99], TFile 5); ([100], TFile 7)]); ([101], TFile 9)] in
   (* ignore directory b: c and d vanish with it even though the matcher would accept d *)
@@ -52,3 +62,4 @@ Print Assumptions C17_walk_is_process_of_selected.
 Print Assumptions C17_pruned_walk_spec.
 Print Assumptions C17_selected_iff_no_ignored_ancestor.
 Print Assumptions C17_no_flag_no_filter.
+Print Assumptions C17_root_never_filtered.
